@@ -32,6 +32,7 @@ ASSUMPTIONS = [
 ]
 
 BASIS_CAP = 6_000_000
+CENTRE2 = {"ext": [3, 5], "k": 2, "kf": 0, "M": [3, 3], "torus": [True, False], "pad": "SAME", "rhs": 2, "lhs": None}
 
 
 def _dims(d, tier):
@@ -86,6 +87,12 @@ def cases(tier, seed):
             c["grp"] = f"{d}/{c['ext']}/{c['k']}/{c['kf']}/{c['M']}"
             c["cost"] = 8 if d == 3 else 1
             out.append(c)
+    for cell, dev in explore.cells(explore.recentre(_dims(2, tier), CENTRE2), 2):
+        c = dict(cell, d=2, dev=dev + 10, kind="cell")
+        c["grp"] = f"2/{c['ext']}/{c['k']}/{c['kf']}/{c['M']}"
+        c["cost"] = 1
+        out.append(c)
+    out = explore.dedupe(out, lambda c: repr(sorted((k, str(v)) for k, v in c.items() if k not in ("dev", "grp", "cost"))))
     for d in (2, 3):
         out.append({"d": d, "kind": "class", "cost": 10})
     return out
